@@ -134,7 +134,9 @@ def check_split_chars(s, nl, opt, res, case):
     end = len(s)
     n_none_in = sum(1 for n in nl.nodelist if n is None)
     n_none_out = sum(1 for p in parts for n in p.nodelist if n is None)
-    if n_none_out != (0 if skip_none else n_none_in):
+    if n_none_out > n_none_in or (skip_none and n_none_out) or \
+            (not skip_none and keep_empty and n_none_out != n_none_in):
+        # (with keep_empty off a part holding only placeholders may be dropped as empty)
         res.fail('c18:none-entries:%s' % ('skip_none' if skip_none else 'keep_none'),
                  '%d None entries in the list, %d in the parts (skip_none=%r)'
                  % (n_none_in, n_none_out, skip_none), case)
@@ -158,6 +160,8 @@ def check_split_chars(s, nl, opt, res, case):
             for p, (a, b) in zip(parts, spans):
                 if n_none_out and not any(n is not None for n in p.nodelist):
                     continue    # only placeholders: no source position to speak of
+                if not any(n is not None for n in p.nodelist):
+                    continue    # an empty part has no node whose position could be wrong
                 if p.pos is None or p.pos_end is None or not (a <= p.pos <= p.pos_end <= b):
                     res.fail('c18:list-position:%s' % tag,
                              'part %r has list pos %r..%r, model span %d..%d'
@@ -269,18 +273,22 @@ def check_split_node(s, nl, opt, res, case):
     if max_split is None and len(parts) != nsep + 1:
         res.fail('c18:split_at_node:part-count:%s' % tag,
                  '%d parts for %d separators' % (len(parts), nsep), case)
-    # non-last parts never contain a separator in their interior
+    # a kept separator sits at a part boundary (first node of the part it opens, or last node of
+    # the part it closes); no other position of a non-last part holds a separator
     for i, p in enumerate(parts[:-1] if max_split is not None else parts):
-        inner = list(p.nodelist)[1:] if keep_sep else list(p.nodelist)
+        nodes = [n for n in p.nodelist if n is not None]
+        inner = nodes[1:-1] if keep_sep else nodes
         if any(pred(n) for n in inner):
             res.fail('c18:split_at_node:unsplit-separator:%s' % tag,
-                     'part %d contains a separator node' % i, case)
+                     'part %d contains a separator node in its interior' % i, case)
             return
     if keep_sep:
-        for i, p in enumerate(parts[1:]):
-            if not len(p.nodelist) or not pred(p.nodelist[0]):
-                res.fail('c18:split_at_node:separator-not-kept', 'part %d does not start with the '
-                         'separator' % (i + 1), case)
+        for i in range(1, len(parts)):
+            prev = [n for n in parts[i - 1].nodelist if n is not None]
+            cur = [n for n in parts[i].nodelist if n is not None]
+            if not ((cur and pred(cur[0])) or (prev and pred(prev[-1]))):
+                res.fail('c18:split_at_node:separator-not-kept', 'no separator node at the '
+                         'boundary between parts %d and %d' % (i - 1, i), case)
                 return
     return nsep
 
@@ -316,19 +324,17 @@ def check_keyval(s, nl, opt, res, case):
     elif default is not None:
         kw['default_value_nodelist'] = nl.latex_walker.make_nodelist(
             [], parsing_state=nl.parsing_state, pos=0, pos_end=0)
-    try:
-        got = nl.parse_keyval_content(**kw)
-        outcome = 'ok'
-    except ValueError as e:
-        got, outcome = e, 'ValueError'
-    except LatexWalkerParseError as e:
-        got, outcome = e, 'LatexWalkerParseError'
-    except Exception as e:
-        res.fail(exc_key(e), exc_detail(e), case)
-        return
     if bad_key:
         res.label('keyval:non-character-key')
         return      # outside the stated domain (keys made of characters only)
+    try:
+        got = nl.parse_keyval_content(**kw)
+        outcome = 'ok'
+    except (ValueError, LatexWalkerParseError) as e:
+        got, outcome = e, 'error'
+    except Exception as e:
+        res.fail(exc_key(e), exc_detail(e), case)
+        return
     # model: key text = characters of the key span with comments and group braces removed
     def key_text(a, b):
         out = ''
@@ -371,7 +377,7 @@ def check_keyval(s, nl, opt, res, case):
     if repeated:
         res.label('keyval:repeated-key:' + action)
     if action == 'error' and repeated:
-        if outcome != 'ValueError':
+        if outcome != 'error':      # (which exception class reports it is not stated)
             res.fail('c18:keyval:repeated-key-not-reported', 'repeated key in %r with action '
                      "'error' gave %s" % (s, outcome), case)
         return
@@ -390,6 +396,12 @@ def check_keyval(s, nl, opt, res, case):
                      'value for key %r is %r (%s)' % (k, type(v).__name__, exc_detail(e)), case)
             return
     want = {k: (v if v is not None else '') for k, v in model.items()}
+    # keys are compared modulo blanks around them (whether "k = v" gives 'k' or 'k ' is not
+    # stated), unless that would identify two different keys
+    if len(set(k.strip() for k in want)) == len(want) and \
+            len(set(k.strip() for k in gotd)) == len(gotd):
+        want = {k.strip(): v for k, v in want.items()}
+        gotd = {k.strip(): v for k, v in gotd.items()}
     if gotd != want:
         key = 'c18:keyval:differs:%s' % tag
         if special_empty_key:
